@@ -276,14 +276,33 @@ static void aead_oneshot(int kind, Bytes &ct, const Material &m)
 
 // Canonical single-call form for `outlen` bytes of output after input `in`.
 // `status` receives the status a single expand call reports (hkdf) or 0.
+// `earlier`: completed (absorbed bytes, squeezed length) rounds of a session that went back from squeezing to
+// absorbing (XOF/XOFA).  The canonical form of such a session is one absorb call and one squeeze call per round.
+typedef std::vector<std::pair<Bytes, size_t>> Rounds;
 static Bytes canonical(const Params &p, const Material &m, const Bytes &in, size_t outlen, int *status,
-                       bool *used_oneshot)
+                       bool *used_oneshot, const Rounds *earlier = nullptr)
 {
     Bytes out(outlen);
     uint8_t dummy[1];
     uint8_t *o = outlen ? out.data() : dummy;
     *status = 0;
     *used_oneshot = true;
+    if (earlier && !earlier->empty()) {
+        *used_oneshot = false;
+        AnyState *st = (AnyState *)aalloc(64, sizeof(AnyState));
+        memset(st, 0x3c, sizeof(AnyState));
+        lib_init(st, p, m, false);
+        for (auto &rd : *earlier) {
+            lib_absorb(st, p.kind, ptr(rd.first), rd.first.size());
+            Bytes skip(rd.second ? rd.second : 1);
+            lib_squeeze(st, p, m, skip.data(), rd.second);
+        }
+        lib_absorb(st, p.kind, ptr(in), in.size());
+        *status = lib_squeeze(st, p, m, o, outlen);
+        lib_free(st, p.kind);
+        free(st);
+        return out;
+    }
     switch (p.kind) {
     case HASH: out.resize(32); ascon_hash(out.data(), ptr(in), in.size()); return out;
     case HASHA: out.resize(32); ascon_hasha(out.data(), ptr(in), in.size()); return out;
@@ -318,7 +337,8 @@ struct Obj {
     bool live = false;
     Params p;
     Material m;
-    Bytes in, out;     // transcript
+    Bytes in, out;     // transcript of the current round
+    Rounds earlier;    // XOF/XOFA: rounds completed before an absorb that followed a squeeze
     int phase = 0;     // 0 absorbing, 1 squeezing, 2 finished
     int status_or = 0; // hkdf: OR of "returned -1"
     Bytes ct;          // AEAD: one-shot ciphertext||tag (library)
@@ -407,7 +427,8 @@ struct StreamWorld : World {
             }
             unsigned rate = kind_rate(o.kind);
             unsigned c = (unsigned)r.below(100);
-            if (c < 40 && has_absorb(o.kind) && o.phase == 0) {
+            if (c < 40 && has_absorb(o.kind) && (o.phase == 0 || (o.phase == 1 && (o.kind == XOF || o.kind == XOFA) && r.chance(1, 3)))) {
+                o.phase = 0;
                 size_t n = pick_len(r, rate, true);
                 pl.add("absorb", {slot, (int64_t)n, (int64_t)((r.below(3) == 0 ? 1 : 0) | (r.chance(1, 2) ? 2 : 0))}); // bit 0 in place, bit 1 null pointer for an empty chunk
                 o.absorbed += n;
@@ -477,7 +498,7 @@ struct StreamWorld : World {
         if (!c.record) return;
         int st = 0;
         bool one = false;
-        Bytes want = canonical(o.p, o.m, o.in, o.out.size(), &st, &one);
+        Bytes want = canonical(o.p, o.m, o.in, o.out.size(), &st, &one, &o.earlier);
         if (single_final(o.p.kind)) want.resize(std::min(want.size(), o.out.size()));
         if (want != o.out) {
             size_t i = 0;
@@ -558,7 +579,16 @@ struct StreamWorld : World {
     {
         int slot = (int)(op.u(0) % NSLOTS);
         Obj &o = c.obj[slot];
-        if (!o.live || o.phase != 0 || !has_absorb(o.p.kind)) return;
+        if (!o.live || !has_absorb(o.p.kind)) return;
+        if (o.phase == 1 && (o.p.kind == XOF || o.p.kind == XOFA)) {
+            // back from squeezing to absorbing: the round so far is closed (its output has been checked call by call)
+            o.earlier.push_back({o.in, o.out.size()});
+            o.in.clear();
+            o.out.clear();
+            o.phase = 0;
+            if (c.record) c.run->fault("obj.absorb_after_squeeze");
+        }
+        if (o.phase != 0) return;
         AnyState *st = &c.slots[slot];
         size_t n = (size_t)op.u(1) % 4096;
         bool inplace = op.u(2) & 1;
